@@ -1103,3 +1103,31 @@ Qed.
 Example tr_ReadInt16_ex :
   tr_ReadInt16 20 0 2 true (mk [26; 12; 11; 33; 255; 254; 7]%N 0 0) = Return (mk [26; 12; 11; 33; 255; 254; 7]%N 6 0, -2, false).
 Proof. vm_compute. reflexivity. Qed.
+
+(* ---------- SkipTo: the field search plus the wire type check ---------- *)
+Definition skip_to_p (fuel : nat) (ty tag : N) (require : bool) (bs : list N) : seek :=
+  match seek_p fuel tag require bs with
+  | Found t r => if (t =? ty)%N then Found t r else SeekErr
+  | x => x
+  end.
+Theorem tr_SkipTo_equiv : forall f F (ty tag : N) req ref p, (f + 3 <= F)%nat -> ok (mk ref p 0) -> (ty < 256)%N ->
+  seek_p f tag req (go_drop ref p) <> SeekFuel ->
+  match skip_to_p f ty tag req (go_drop ref p) with
+  | Found _ rest => exists p', tr_SkipTo F (Z.of_N ty) (Z.of_N tag) req (mk ref p 0) = Return (mk ref p' 0, true, false) /\ go_drop ref p' = rest
+  | NotFound rest => exists p', tr_SkipTo F (Z.of_N ty) (Z.of_N tag) req (mk ref p 0) = Return (mk ref p' 0, false, false) /\ go_drop ref p' = rest
+  | SeekErr => exists p', tr_SkipTo F (Z.of_N ty) (Z.of_N tag) req (mk ref p 0) = Return (mk ref p' 0, false, true)
+  | SeekFuel => True
+  end.
+Proof.
+  intros f F ty tag req ref p HF Hok Hty H.
+  pose proof (tr_SkipToNoCheck_equiv f F tag req ref p HF Hok H) as SK. unfold tr_SkipTo, skip_to_p.
+  destruct (seek_p f tag req (go_drop ref p)) as [t rest|rest| |]; cbn [seek_sim] in SK; try congruence.
+  - destruct SK as (q & -> & Er & Hq & Ht). cbn [go_call bindc Bool.eqb negb].
+    destruct (t =? ty)%N eqn:E.
+    + replace (Z.of_N ty =? Z.of_N t) with true by lia. cbn [negb bindc]. exists q. split; [reflexivity|exact Er].
+    + replace (Z.of_N ty =? Z.of_N t) with false by lia. cbn [negb bindc]. exists q. reflexivity.
+  - destruct SK as (q & t & -> & Er & Hq). cbn [go_call bindc Bool.eqb negb]. exists q. split; [reflexivity|exact Er].
+  - destruct SK as (q & t & -> & Hq). cbn [go_call bindc Bool.eqb negb]. exists q. reflexivity.
+Qed.
+Lemma skip_to_p_clean f ty tag req bs : seek_p f tag req bs <> SeekFuel -> skip_to f ty tag req bs = skip_to_p f ty tag req bs.
+Proof. intros H. unfold skip_to, skip_to_p. rewrite seek_p_clean by exact H. reflexivity. Qed.
